@@ -173,7 +173,7 @@ PROPS: dict[str, dict[str, Any]] = {
                         "pytest's runtest protocol is a stub that records (item, nextitem)"],
     },
     "C07": {
-        "components": [worker(), sched(["worksteal"], crash=0.03)],
+        "components": [worker(), sched(["worksteal"], crash=0.03), system(["plain", "crash"], 240, 5000, modes=["worksteal"])],
         "assumptions": ["queue duplicate-freeness is an invariant of reachable system states (controller never has an index outstanding twice, C16)"],
     },
     "C16": {
@@ -209,7 +209,8 @@ PROPS: dict[str, dict[str, Any]] = {
                         "execnet's dumps/loads and the warnings module are exercised, not modelled; builtins.Warning is importable"],
     },
     "C17": {
-        "components": [system(["lifecycle", "budget", "crash", "lifecycle", "earlystop"], 500, 9000), receiver()],
+        "components": [system(["lifecycle", "budget", "crash", "lifecycle", "earlystop"], 500, 9000),
+                       system(["crash", "lifecycle"], 240, 4000, modes=["worksteal"]), receiver()],
         "assumptions": ["deaths are injected at: before workerready, during collection, right after collectionfinish, inside a test, between tests, instead of workerfinished; "
                         "an undecodable message is an unknown event name / a report that cannot be rebuilt / a non-tuple object",
                         "partial writes inside one execnet message and exceptions of the receiver thread itself are outside the model",
